@@ -14,7 +14,11 @@ import (
 	"context"
 	"errors"
 	"fmt"
+	"io"
+	"net"
+	"net/http"
 	"strings"
+	"syscall"
 	"time"
 
 	"github.com/thushan/olla/internal/adapter/health"
@@ -45,6 +49,43 @@ const hurl = "http://e1/health"
 func (b healthB) Ask() bool { return !b.cb.IsOpen(hurl) }
 func (b healthB) Fail()     { b.cb.RecordFailure(hurl) }
 func (b healthB) Succ()     { b.cb.RecordSuccess(hurl) }
+
+// healthClientB drives the health breaker through its production caller, HealthClient.Check: permission and outcome
+// are one call there. The scripted HTTP client answers 200 (AS), 500 (AF: not retried) or refuses the connection (AFr:
+// retried inside the same check - three attempts, one outcome for the breaker). "Admitted" = the endpoint was contacted.
+type hcScript struct {
+	outcome string
+	calls   int
+}
+
+func (s *hcScript) Do(req *http.Request) (*http.Response, error) {
+	s.calls++
+	switch s.outcome {
+	case "AS":
+		return &http.Response{StatusCode: 200, Status: "200", Body: io.NopCloser(strings.NewReader("ok")), Header: http.Header{}, Request: req}, nil
+	case "AF":
+		return &http.Response{StatusCode: 500, Status: "500", Body: io.NopCloser(strings.NewReader("no")), Header: http.Header{}, Request: req}, nil
+	}
+	return nil, &net.OpError{Op: "dial", Net: "tcp", Err: syscall.ECONNREFUSED}
+}
+
+type healthClientB struct {
+	hc *health.HealthClient
+	cl *hcScript
+	ep *domain.Endpoint
+}
+
+func (b *healthClientB) Prepare(kind string) { b.cl.outcome = kind }
+func (b *healthClientB) Ask() bool {
+	if b.cl.outcome == "" {
+		b.cl.outcome = "AS"
+	}
+	before := b.cl.calls
+	b.hc.Check(context.Background(), b.ep)
+	return b.cl.calls > before
+}
+func (b *healthClientB) Fail() {} // reported by Check itself
+func (b *healthClientB) Succ() {}
 
 type engineB struct{ cb olla.VerifBreaker }
 
@@ -132,6 +173,13 @@ func allParams() []params {
 	return []params{
 		{Name: "health", T: health.DefaultCircuitBreakerThreshold, D: health.DefaultCircuitBreakerTimeout, Policy: "health", Assert: true,
 			mk: func() brk { return healthB{health.NewCircuitBreaker()} }, steps: []time.Duration{500 * time.Millisecond, 1500 * time.Millisecond, 31 * time.Second}},
+		// the same breaker reached through HealthClient.Check (production caller; asks and outcomes are one call there)
+		{Name: "health-client", T: health.DefaultCircuitBreakerThreshold, D: health.DefaultCircuitBreakerTimeout, Policy: "health", Assert: true, kinds: []string{"AS", "AF", "AFr"},
+			mk: func() brk {
+				cl := &hcScript{}
+				return &healthClientB{hc: health.NewHealthClient(cl, health.NewCircuitBreaker()), cl: cl,
+					ep: &domain.Endpoint{Name: "e1", URLString: "http://e1", HealthCheckURLString: hurl, CheckTimeout: 2 * time.Second}}
+			}, steps: []time.Duration{500 * time.Millisecond, 1500 * time.Millisecond, 31 * time.Second}},
 		{Name: "engine", T: 5, D: health.DefaultCircuitBreakerTimeout, Policy: "engine", Assert: true,
 			mk: func() brk { return engineB{olla.VerifNewEngineBreaker()} }, steps: []time.Duration{time.Second, 31 * time.Second}},
 		{Name: "unifier-default", T: def.FailureThreshold, D: def.OpenDuration, Policy: "unifier", H: def.HalfOpenRequests, ST: def.SuccessThreshold, Assert: true,
@@ -377,7 +425,7 @@ func (r *runner) step(e event) *fail {
 	case "T":
 		vclock.Advance(e.d)
 		return nil
-	case "A", "AF", "AS", "ASe":
+	case "A", "AF", "AFr", "AS", "ASe":
 		if pb, ok := r.b.(interface{ Prepare(string) }); ok {
 			pb.Prepare(e.kind)
 		}
@@ -389,7 +437,7 @@ func (r *runner) step(e event) *fail {
 			if e.kind == "A" {
 				r.pending = append(r.pending, r.idx)
 			} else {
-				r.outcome(r.idx, e.kind != "AF")
+				r.outcome(r.idx, e.kind != "AF" && e.kind != "AFr")
 			}
 		}
 	case "F!": // a failure reported for the endpoint without a call having been admitted (a failed discovery)
@@ -418,6 +466,9 @@ func (r *runner) liveness() *fail {
 		r.outcome(at, true)
 	}
 	r.pending = nil
+	if pb, ok := r.b.(interface{ Prepare(string) }); ok {
+		pb.Prepare("AS")
+	}
 	rounds := r.p.T + 3
 	for i := 0; i < rounds; i++ {
 		vclock.Advance(r.p.D + time.Second)
